@@ -5,7 +5,7 @@
    MergeJsonProofs.v. *)
 From Coq Require Import List String Bool Arith.
 From Helm Require Import Common.Assoc Engine.Cluster Engine.Obj2 Engine.Update2.
-From Helm Require Import Engine.Merge3Proofs Engine.MergeJsonProofs Engine.Update2Proofs.
+From Helm Require Import Engine.Merge3Proofs Engine.MergeJsonProofs Engine.MergeJson3Proofs Engine.Update2Proofs.
 Import ListNotations.
 
 Theorem update2_specified :
@@ -51,4 +51,27 @@ Proof.
     unfold merged2, mode_of. rewrite Hu, Ho, Ht. cbn [merge_by].
     now apply j2_specified.
   - eexists. split; [exact Hi|]. now rewrite Ht.
+Qed.
+
+Theorem update2_specified_json3 :
+  forall (o : store2) (cur tgt : list res2) (o' : store2) (created : list string) (muts : list (verb * string)),
+    NoDup (map r2_key tgt) ->
+    k2_update false true o cur tgt = (o', (true, created), muts) ->
+    forall t tm, In t tgt -> r2_unstr t = true -> r2_obj t = TM tm -> wf_tree (TM tm) = true ->
+    forall p v, mget p (TM tm) = Some v -> nonmap v = true ->
+    (* when the object exists: it and the old manifest entry are JSON objects *)
+    (forall live old, aget (r2_key t) o = Some live -> find_res2 (r2_key t) cur = Some old ->
+       exists lm om, live = TM lm /\ r2_obj old = TM om /\ wf_tree (TM om) = true /\ wf_tree (TM lm) = true) ->
+    exists live' v', aget (r2_key t) o' = Some live' /\ mget p live' = Some v' /\ (v' = v \/ teqv v' v = true).
+Proof.
+  intros o cur tgt o' created muts Hnd H t tm Hin Hu Ht Hwf p v Hp Hn Hyp.
+  destruct (update2_matches false true o cur tgt o' created muts Hnd H) as [Hi _].
+  specialize (Hi t Hin).
+  destruct (aget (r2_key t) o) as [live|].
+  - destruct Hi as [old [Hf Hget]].
+    destruct (Hyp live old eq_refl Hf) as [lm [om [-> [Ho [Hwo Hwl]]]]].
+    destruct (j3_specified p om tm lm v Hwo Hwf Hwl Hp Hn) as [v' [Hm Hv]].
+    eexists. exists v'. split; [exact Hget|].
+    unfold merged2, mode_of. rewrite Hu, Ho, Ht. cbn [merge_by]. auto.
+  - eexists. exists v. split; [exact Hi|]. rewrite Ht. auto.
 Qed.
